@@ -448,6 +448,10 @@ class StackFx:
                 return val
             return None
         if nm == 'len' and e.args:
+            a0 = e.args[0]
+            if self._is_own_stack(a0, cx) or (isinstance(a0, ast.Attribute) and a0.attr == 'deque'
+                                               and self._is_own_stack(a0.value, cx)):
+                return ('stacklen',)         # the current depth: unknown, but recognisable in a later guard
             v = self.ev(e.args[0], st, cx)
             if isinstance(v, tuple) and v[0] == 'len':
                 return v[1]
@@ -530,6 +534,8 @@ class StackFx:
                 return
 
         def is_len(x):
+            if isinstance(x, ast.Name) and st.env.get(x.id) == ('stacklen',):
+                return True
             if isinstance(x, ast.Call) and dotted(x.func) == 'len' and x.args:
                 a = x.args[0]
                 return self._is_own_stack(a, cx) or (isinstance(a, ast.Attribute) and a.attr == 'deque'
@@ -710,6 +716,18 @@ class StackFx:
                     bindings = [('one', k if isinstance(k, int) else None) for k, _ in v[1]]
                 else:
                     bindings = [('one', val) for _, val in v[1]]
+        elif isinstance(it, (ast.Tuple, ast.List)) and it.elts and not any(isinstance(x, ast.Starred) for x in it.elts):
+            # a literal table: bind each element (scalars and tuples of scalars are known values)
+            def _lit(x):
+                if isinstance(x, ast.Constant) and isinstance(x.value, (int, bool)):
+                    return int(x.value)
+                return None
+            bindings = []
+            for el in it.elts:
+                if isinstance(el, (ast.Tuple, ast.List)):
+                    bindings.append(('tuple', tuple(_lit(y) for y in el.elts)))
+                else:
+                    bindings.append(('one', _lit(el)))
         elif isinstance(it, ast.Call) and dotted(it.func) == 'range':
             vals = [self.ev(a, st, cx) for a in it.args]
             if vals and all(isinstance(v, int) for v in vals):
@@ -737,6 +755,10 @@ class StackFx:
                     self._bind(s.target.id, b[1] if b[0] == 'one' else None, x)
                 elif isinstance(s.target, ast.Tuple) and b[0] == 'pair' and len(s.target.elts) == 2:
                     for t, v in zip(s.target.elts, (b[1], b[2])):
+                        if isinstance(t, ast.Name):
+                            self._bind(t.id, v if isinstance(v, int) else None, x)
+                elif isinstance(s.target, ast.Tuple) and b[0] == 'tuple' and len(s.target.elts) == len(b[1]):
+                    for t, v in zip(s.target.elts, b[1]):
                         if isinstance(t, ast.Name):
                             self._bind(t.id, v if isinstance(v, int) else None, x)
                 else:
